@@ -14,3 +14,35 @@ def replay_union(rec):
             results[name] = (type(ex).__name__, str(ex)[:120])
     bad = results["Union[str,int]"][0] != results["Union[int,str]"][0] or any("Error(" in r[1] for r in results.values() if r[0] == "ok")
     return {"reproduced": bad, "signature": "union-order-dependent-acceptance" if bad else "", "input": "--k=null", "results": results}
+
+
+def _parser(hint):
+    from jsonargparse import ArgumentParser
+    p = ArgumentParser(exit_on_error=False)
+    p.add_argument("--k", type=hint)
+    return p
+
+
+def replay_dict_key(rec):
+    from typing import Dict
+    try:
+        out = _parser(Dict[str, int]).parse_object({"k": {7: 0}}).k
+        bad = any(not isinstance(key, str) for key in out)
+        got = ("ok", repr(out))
+    except Exception as ex:  # noqa
+        bad, got = False, (type(ex).__name__, str(ex)[:120])
+    return {"reproduced": bad, "signature": "dict-str-key-unchecked" if bad else "", "input": "{'k': {7: 0}} for Dict[str,int]", "got": got}
+
+
+def replay_literal(rec):
+    from typing import Literal
+    res = {}
+    bad = False
+    for v in (True, 1.0):
+        try:
+            out = _parser(Literal[1, 2, "a"]).parse_object({"k": v}).k
+            res[repr(v)] = ("ok", repr(out))
+            bad = bad or type(out) is not int
+        except Exception as ex:  # noqa
+            res[repr(v)] = (type(ex).__name__, str(ex)[:100])
+    return {"reproduced": bad, "signature": "literal-membership-by-equality" if bad else "", "results": res}
